@@ -210,7 +210,7 @@ def check(case):
         for lid, g, edges in built:
             obs = []
             check_graph(lid, g, edges, V, obs)
-            if g['h']:
+            if g.get('h') or g.get('edges'):
                 nt += 1
                 digs.append(runner.digest(obs))
         return {'v': V, 'digs': digs, 'nt': nt, 'n': len(built)}
@@ -226,7 +226,9 @@ def tables_for(n, tier, seed):
 
 
 def space(tier, seed):
-    gs = []
+    from .c13 import family_graphs
+    gs = [dict(g, tables=[tuple([2] * g['n']), tuple((1, 2, 5)[i % 3] for i in range(g['n']))])
+          for g in family_graphs(tier)]
     for n in (1, 2, 3):
         for h in range(1 << (n * n)):
             gs.append({'n': n, 'loops': True, 'h': h, 'tables': tables_for(n, tier, seed)})
